@@ -426,13 +426,18 @@ static void recv_trace_dir_name(int sock, int len)
 	client->dirname = xstrdup(dirname);
 	INIT_LIST_HEAD(&client->list);
 
-	/* do not share (or rotate away) the directory of a connected client */
-	for (n = 1; dirname_in_use(client->dirname); n++) {
+	/*
+	 * do not share (or rotate away) the directory of a connected client,
+	 * and never write into a directory that could not be created (it can
+	 * be somebody else's data).
+	 */
+	for (n = 1; dirname_in_use(client->dirname) || create_directory(client->dirname) < 0; n++) {
+		if (n > 100)
+			pr_err_ns("cannot create a directory for %s\n", dirname);
+
 		free(client->dirname);
 		xasprintf(&client->dirname, "%s.%d", dirname, n);
 	}
-
-	create_directory(client->dirname);
 	pr_dbg3("create directory: %s\n", client->dirname);
 
 	list_add(&client->list, &client_list);
